@@ -1,0 +1,175 @@
+//! Verification hooks (feature `verif-hooks`, off by default; nothing here is compiled otherwise).
+//!
+//! * a record of the length up to which each segment file was last `sync_data`ed, and
+//! * named pause points: a harness can make a thread of the code under test stop at a label and
+//!   resume it later, which turns "what can another thread observe while this one is between two
+//!   steps" into something a harness enumerates instead of a race.
+//!
+//! Pause points are no-ops unless a harness enabled the label.
+
+use std::collections::{HashMap, HashSet};
+use std::fs::File;
+use std::os::unix::fs::MetadataExt;
+use std::path::Path;
+use std::sync::{Condvar, Mutex, OnceLock};
+use std::time::{Duration, Instant};
+
+#[derive(Default)]
+struct SyncLog {
+    // (dev, ino) -> (length covered by the last successful sync_data, number of syncs)
+    files: HashMap<(u64, u64), (u64, u64)>,
+}
+
+fn sync_log() -> &'static Mutex<SyncLog> {
+    static LOG: OnceLock<Mutex<SyncLog>> = OnceLock::new();
+    LOG.get_or_init(Default::default)
+}
+
+fn file_key(file: &File) -> Option<(u64, u64)> {
+    file.metadata().ok().map(|m| (m.dev(), m.ino()))
+}
+
+/// Called by the writer right after a successful `sync_data`.
+pub fn record_sync(file: &File, len: u64) {
+    if let Some(key) = file_key(file) {
+        let mut log = sync_log().lock().unwrap();
+        let e = log.files.entry(key).or_insert((0, 0));
+        e.0 = len;
+        e.1 += 1;
+    }
+}
+
+/// Length covered by the last `sync_data` of the file at `path`, and how many syncs it has seen.
+pub fn synced_len(path: impl AsRef<Path>) -> Option<(u64, u64)> {
+    let m = std::fs::metadata(path).ok()?;
+    sync_log()
+        .lock()
+        .unwrap()
+        .files
+        .get(&(m.dev(), m.ino()))
+        .copied()
+}
+
+pub fn forget_sync_log() {
+    sync_log().lock().unwrap().files.clear();
+}
+
+#[derive(Default)]
+struct PauseState {
+    enabled: HashSet<&'static str>,
+    parked: HashMap<&'static str, usize>,
+    permits: HashMap<&'static str, usize>,
+    hits: HashMap<&'static str, u64>,
+}
+
+struct Pauses {
+    state: Mutex<PauseState>,
+    cv: Condvar,
+}
+
+fn pauses() -> &'static Pauses {
+    static P: OnceLock<Pauses> = OnceLock::new();
+    P.get_or_init(|| Pauses {
+        state: Mutex::new(PauseState::default()),
+        cv: Condvar::new(),
+    })
+}
+
+/// Called by the code under test.  Blocks the calling thread while `label` is enabled, until the
+/// harness releases it.  Never called while a lock is held.
+pub fn pause(label: &'static str) {
+    let p = pauses();
+    let mut st = p.state.lock().unwrap();
+    *st.hits.entry(label).or_insert(0) += 1;
+    if !st.enabled.contains(label) {
+        return;
+    }
+    *st.parked.entry(label).or_insert(0) += 1;
+    p.cv.notify_all();
+    loop {
+        if !st.enabled.contains(label) {
+            break;
+        }
+        if let Some(n) = st.permits.get_mut(label)
+            && *n > 0
+        {
+            *n -= 1;
+            break;
+        }
+        st = p.cv.wait(st).unwrap();
+    }
+    *st.parked.get_mut(label).unwrap() -= 1;
+    p.cv.notify_all();
+}
+
+/// Harness: threads reaching `label` from now on stop there.
+pub fn enable(label: &'static str) {
+    let p = pauses();
+    p.state.lock().unwrap().enabled.insert(label);
+}
+
+/// Harness: stop pausing at `label` and let everything parked there continue.
+pub fn disable(label: &'static str) {
+    let p = pauses();
+    let mut st = p.state.lock().unwrap();
+    st.enabled.remove(label);
+    st.permits.remove(label);
+    p.cv.notify_all();
+}
+
+pub fn disable_all() {
+    let p = pauses();
+    let mut st = p.state.lock().unwrap();
+    st.enabled.clear();
+    st.permits.clear();
+    p.cv.notify_all();
+}
+
+/// Harness: wait until a thread is parked at `label`.
+pub fn wait_parked(label: &'static str, timeout: Duration) -> bool {
+    let p = pauses();
+    let deadline = Instant::now() + timeout;
+    let mut st = p.state.lock().unwrap();
+    loop {
+        if st.parked.get(label).copied().unwrap_or(0) > 0 {
+            return true;
+        }
+        let now = Instant::now();
+        if now >= deadline {
+            return false;
+        }
+        st = p.cv.wait_timeout(st, deadline - now).unwrap().0;
+    }
+}
+
+pub fn is_parked(label: &'static str) -> bool {
+    pauses()
+        .state
+        .lock()
+        .unwrap()
+        .parked
+        .get(label)
+        .copied()
+        .unwrap_or(0)
+        > 0
+}
+
+/// Harness: let one thread parked (now or later) at `label` continue.
+pub fn release(label: &'static str) {
+    let p = pauses();
+    let mut st = p.state.lock().unwrap();
+    *st.permits.entry(label).or_insert(0) += 1;
+    p.cv.notify_all();
+}
+
+/// How often `label` was reached so far (whether or not it was enabled).
+pub fn hits(label: &'static str) -> u64 {
+    pauses()
+        .state
+        .lock()
+        .unwrap()
+        .hits
+        .get(label)
+        .copied()
+        .unwrap_or(0)
+}
